@@ -588,3 +588,79 @@ func ReturnOperand(ret *ssa.Return, i int) ssa.Value {
 	}
 	return v
 }
+
+// CapturedSingleStore resolves a captured variable to the one value it ever
+// holds: the free variable is bound to a cell of an enclosing function, that
+// cell is stored exactly once there, and no closure that captures it stores
+// into it. nil when any of this is not the case.
+func CapturedSingleStore(fv *ssa.FreeVar) ssa.Value {
+	fn := fv.Parent()
+	if fn == nil || fn.Parent() == nil {
+		return nil
+	}
+	idx := -1
+	for i, q := range fn.FreeVars {
+		if q == fv {
+			idx = i
+		}
+	}
+	if idx < 0 {
+		return nil
+	}
+	var cell ssa.Value
+	for _, b := range fn.Parent().Blocks {
+		for _, in := range b.Instrs {
+			if mc, ok := in.(*ssa.MakeClosure); ok && mc.Fn == fn && idx < len(mc.Bindings) {
+				if cell != nil && cell != mc.Bindings[idx] {
+					return nil
+				}
+				cell = mc.Bindings[idx]
+			}
+		}
+	}
+	switch c := cell.(type) {
+	case *ssa.FreeVar:
+		if storesThroughCapture(fn.Parent(), c) {
+			return nil
+		}
+		return CapturedSingleStore(c)
+	case *ssa.Alloc:
+		if storesThroughCapture(fn.Parent(), c) {
+			return nil
+		}
+		return SingleStore(c)
+	}
+	return nil
+}
+
+// storesThroughCapture: some closure created in f (at any depth) that captures
+// the cell stores into it.
+func storesThroughCapture(f *ssa.Function, cell ssa.Value) bool {
+	for _, b := range f.Blocks {
+		for _, in := range b.Instrs {
+			mc, ok := in.(*ssa.MakeClosure)
+			if !ok {
+				continue
+			}
+			g, _ := mc.Fn.(*ssa.Function)
+			if g == nil {
+				continue
+			}
+			for i, bd := range mc.Bindings {
+				if bd != cell || i >= len(g.FreeVars) {
+					continue
+				}
+				gfv := g.FreeVars[i]
+				for _, r := range *gfv.Referrers() {
+					if st, ok := r.(*ssa.Store); ok && st.Addr == gfv {
+						return true
+					}
+				}
+				if storesThroughCapture(g, gfv) {
+					return true
+				}
+			}
+		}
+	}
+	return false
+}
